@@ -360,6 +360,17 @@ def sp_astar_cut(interp, st, args, kwargs, node):
     )
     return z3.Implies(prem, z3.Exists([y0, y1, z0, z1], body))
 
+def sp_is_filter(interp, st, args, kwargs, node):
+    """is_filter(lst, src, lambda k: rule(k)[, upto]): lst is exactly the elements src[k], k < upto (default len(src)), with rule(k), in order"""
+    from . import filt
+
+    lst, src, clo = args[0], args[1], args[2]
+    upto = args[3] if len(args) > 3 else None
+    if not isinstance(clo, Closure):
+        raise Outside("is_filter needs a lambda over the source index", node)
+    return filt.is_filter(interp, st, lst, src, lambda k: _call_pred(interp, st, clo, [k]), upto, node)
+
+
 def sp_forall(interp, st, args, kwargs, node, exists=False):
     clo = args[0]
     ranges = args[1:]
@@ -595,6 +606,7 @@ SPEC_FUNCTIONS = {
     "lat_adj": sp_lat_adj,
     "edge": sp_edge,
     "reach": sp_reach,
+    "is_filter": sp_is_filter,
     "dist": sp_dist,
     "astar_cut": sp_astar_cut,
     "reach_induction": sp_reach_induction,
